@@ -711,6 +711,9 @@ impl Logger {
         set_palette(self.o_palette.as_deref())?;
 
         if self.use_utc {
+            // must be decided before the first timestamp is rendered, and the name of the
+            // log file can contain one
+            DeferredNow::force_utc();
             self.flwb = self.flwb.use_utc();
         }
         set_panic_on_error_channel_error(self.panic_on_error_channel_error);
